@@ -88,7 +88,27 @@ var extractTypes = []interface{}{
 	recCustom{}, recCustomPair{}, nestEmpty{}, embPtr{}, customList{}, holdCustomList{},
 	[]zoo.Small{}, []*zoo.Node{}, [][]zoo.Item{}, map[string]*zoo.Ping{}, map[string][]zoo.Custom{}, zoo.Nodes{},
 	keyBoard{}, map[keyCell]*keyStone{}, map[keyCell][]keyStone{},
-	embCustom{}, embCustomPtr{}, ifaceChain{}, twoLists{}, eventT{}, ptrNamed{}, holdPtrNamed{}, recTree{}, recMap{}, holdRec{}, bothSlices{},
+	embCustom{}, embCustomPtr{}, ifaceChain{}, twoLists{}, eventT{}, ptrNamed{}, holdPtrNamed{}, recTree{}, recMap{}, holdRec{}, bothSlices{}, embPtrRecv{}, embPtrRecvPtr{}, mrA{}, mrB{},
+}
+
+// embedding (by value, by pointer) a type whose custom name sits on the POINTER receiver
+type embPtrRecv struct {
+	ptrNamed
+	Name string
+}
+type embPtrRecvPtr struct {
+	*ptrNamed
+	X int32
+}
+
+// mutually recursive types, the recursive field declared before the interface field
+type mrA struct {
+	Line  *mrB
+	Extra []interface{}
+}
+type mrB struct {
+	Order *mrA
+	Note  string
 }
 
 // []T and []*T in one value: the library gives both the wire name "[T" (known finding KF-C16-sliceNameCollision)
@@ -171,6 +191,21 @@ func witnesses(t reflect.Type, g *gen.G, n int) []interface{} {
 		loop := &ifaceChain{Items: []interface{}{zoo.HI64{V: 1}}}
 		loop.Next = &ifaceChain{Items: []interface{}{zoo.HStr{V: "x"}}, Next: loop}
 		ws = append(ws, loop)
+	}
+	if t == reflect.TypeOf(mrA{}) {
+		// only the innermost link of the chain holds a type nothing else mentions
+		for depth := 1; depth <= 4; depth++ {
+			root := &mrA{}
+			cur := root
+			for i := 0; i < depth; i++ {
+				cur.Line = &mrB{Order: &mrA{}}
+				cur = cur.Line.Order
+			}
+			cur.Extra = []interface{}{zoo.Item{K: "deep"}}
+			ws = append(ws, root)
+			root2 := &mrA{Extra: []interface{}{zoo.Small{Name: "top"}}, Line: &mrB{Note: "n", Order: &mrA{Extra: []interface{}{&zoo.Five{A: 1}}, Line: &mrB{Order: &mrA{Extra: []interface{}{zoo.HI64{V: int64(depth)}}}}}}}
+			ws = append(ws, root2)
+		}
 	}
 	if t == reflect.TypeOf(twoLists{}) {
 		all := []interface{}{zoo.Small{Name: "a"}, zoo.Item{K: "b"}, &zoo.Five{A: 1}}
